@@ -48,11 +48,11 @@ type ScenCase struct {
 // numbers used by the byte-level `digits` mutation of scenario text and by the
 // weight / count mutations. They are capped so that a worker survives code that
 // materialises what the number says (the allocation meter then reports it).
-var scenNumbers = []string{"-1", "0", "3000000", "-5", "007", "1e3", "0x10", "1.5", "+3", "-0"}
+var scenNumbers = []string{"-1", "0", "1000000", "-5", "007", "1e3", "0x10", "1.5", "+3", "-0"}
 
 const (
-	hugeStepCount = 3000000   // name(N): N copies of a ~150-byte request
-	hugeWeight    = 100000000 // N pointers in the ammo ring
+	hugeStepCount = 1000000   // name(N): N copies of a ~150-byte request
+	hugeWeight    = 70000000 // N pointers in the ammo ring
 )
 
 var badSteps = []struct {
@@ -545,8 +545,19 @@ func checkScen(c ScenCase, o *vf.Obs) error {
 	} else {
 		note("input", fmt.Sprintf("%q ... (%d bytes)", c.Text[:512], len(c.Text)))
 	}
-	return judge(note, len(c.Text), func() error { return scenBody(c, o) })
+	err := judge(note, len(c.Text), func() error { return scenBody(c, o) })
+	if v, ok := err.(*violation); ok && v.id == "" && strings.HasPrefix(v.msg, "ALLOCATION") && hugeScenNumber.Match(c.Text) {
+		// memory in proportion to a number of the description: a repetition count name(N) or a weight
+		if hugeCountRe.Match(c.Text) {
+			v.id = fHugeStepCount
+		} else {
+			v.id = fHugeWeight
+		}
+	}
+	return err
 }
+
+var hugeCountRe = regexp.MustCompile(`\(\s*[0-9]{7,}`)
 
 func scenBody(c ScenCase, o *vf.Obs) error {
 	class := func(names ...string) {
